@@ -1093,7 +1093,9 @@ func hrTimeoutAboveTTL(w *World, r *Report, rule string) {
 			found := false
 			for _, rel := range relsOfConds(alt.Conds) {
 				l, rr := Path(rel.L), Path(rel.R)
-				isTO := func(p string) bool { return strings.Contains(p, "GetSpoeProcessingTimeout") || strings.Contains(p, "defaultProcessingTimeout") || strings.HasPrefix(p, "phi[") }
+				isTO := func(p string) bool {
+					return strings.Contains(p, "GetSpoeProcessingTimeout") || strings.Contains(p, "defaultProcessingTimeout") || strings.HasPrefix(p, "phi[")
+				}
 				isTTL := func(p string) bool { return strings.Contains(p, "queueTTL") }
 				if isTO(l) && isTTL(rr) && rel.Op == "<=" || isTTL(l) && isTO(rr) && rel.Op == ">=" {
 					found = true
